@@ -759,3 +759,42 @@ def r_tally_reset(ctx):
                               'the new term and a candidate can become leader without a majority of its term (two leaders in one term)' % tally, instance=inst)
     ctx.require(n_starts >= 1, 'no candidacy start (term increment) found')
     ctx.expect_min(1)
+
+
+@rule('R-state-before-notify', 'the state setter stores the new state before it runs any user callback: a callback that raises (or '
+                               'asks the node for its state) cannot leave / see the old role')
+def r_state_before_notify(ctx):
+    """`__setState(FOLLOWER)` is how a cut-off leader steps down.  If the user's onStateChanged callback runs first and
+    raises, the step-down never happens and is re-attempted (and aborted) on every tick: the node keeps reporting itself
+    leader."""
+    P, R = ctx.P, ctx.R
+    f = R.setState
+    if f is None:
+        ctx.ok('no state setter method: the state is assigned directly', '', '')
+        ctx.expect_min(1)
+        return
+    cfg = U.explorer(ctx, f).cfg
+    stores = [U.node_containing(cfg, st).id for st, k in U.assigns_to_attr(P, f, R.raftState)]
+    ctx.require(stores, 'the state setter does not write the state')
+    # calls through a value (local / parameter / attribute of conf): the user callback
+    n_calls = 0
+    for c in P.calls_in(f):
+        fn = c.func
+        user = (isinstance(fn, ast.Name) and (P._is_local(f, fn.id) or fn.id in f.params)) or \
+               (isinstance(fn, ast.Attribute) and not P.self_attr(fn, f.self_name) is None and P.lookup_method(f.owner_cls, fn.attr) is None) or \
+               (isinstance(fn, ast.Attribute) and isinstance(fn.value, ast.Attribute) and P.self_attr(fn.value, f.self_name))
+        if not user:
+            continue
+        n_calls += 1
+        cn = U.node_containing(cfg, c)
+        inst = '%s: `%s` runs after the state is stored' % (f.qualname, unparse(c)[:40])
+        ctx.tick()
+        if cn.id in cfg.reachable_from(cfg.entry.id, avoid=stores):
+            ctx.violation('%s:notify-before-store' % f.qualname, f.loc(c),
+                          'the callback `%s` can run before self.%s is written: if it raises, the transition (e.g. the step-down of a cut-off leader) is lost and repeated in vain on '
+                          'every tick' % (unparse(c)[:40], R.raftState), instance=inst)
+        else:
+            ctx.ok(inst, f.loc(c), 'dominated by the state store')
+    if not n_calls:
+        ctx.ok('%s runs no callback' % f.qualname, f.loc(), '')
+    ctx.expect_min(1)
